@@ -19,6 +19,8 @@ try:
     if keep:
         shutil.copy(os.path.join(d, unit + '.rs'), '/tmp/vgen/' + unit + '.rs')
     print('verified=%d errors=%d wall=%.1fs ok=%s fns=%d clauses=%d' % (r.verified, r.errors, r.wall_s, r.ok, len(g.fns), len(g.clauses)))
+    for (k_, p_, why_) in g.lost:
+        print('LOST: %s %s: %s' % (k_, ' '.join(p_), why_))
     for u_ in r.undecided:
         print('UNDECIDED:', u_[:600])
     for f in r.failures:
